@@ -155,6 +155,24 @@ fn sig_for(kind: &str, read: &str, causes: &[String], known: &KnownFindings) -> 
     format!("{kind}|{family}|multi|{read}|{}", causes.join(","))
 }
 
+/// `<read>:fails` when the store as found answers with an error, `<read>:answers_differently`
+/// when it answers with something else than truth determines: a cache that makes a read FAIL and
+/// one that makes it LIE are different findings and are listed separately.
+fn read_outcome(read: &str, a: &Outcome) -> String {
+    format!("{read}:{}", if matches!(a, Outcome::Err) { "fails" } else { "answers_differently" })
+}
+
+/// C04_SURVEY=1 (development aid): divergences are tallied as classes instead of failing the case,
+/// to list which (family, file, read:outcome) combinations reproduce on a tree.
+fn survey() -> bool {
+    static S: std::sync::OnceLock<bool> = std::sync::OnceLock::new();
+    *S.get_or_init(|| std::env::var_os("C04_SURVEY").is_some())
+}
+
+fn survey_key(sig: &str) -> String {
+    sig.split('|').take(4).collect::<Vec<_>>().join("|")
+}
+
 fn loc_of(p: &str) -> String {
     p.rsplit(" @ ").next().unwrap_or("").to_string()
 }
@@ -231,19 +249,23 @@ fn observe(it: &Interp, p: &Params, causes: &[String], known: &KnownFindings, po
                             json!({"point": point, "thread": tid, "key": key, "B": bv.brief(), "M": mv.brief()}),
                         );
                     } else if av != mv {
-                        rep.fail(
-                            sig_for("cache_divergence", read, causes, known),
-                            json!({"point": point, "thread": tid, "key": key, "A": av.brief(), "M": mv.brief()}),
-                        );
+                        let sig = sig_for("cache_divergence", &read_outcome(read, av), causes, known);
+                        if survey() {
+                            rep.class(format!("survey:{}", survey_key(&sig)));
+                        } else {
+                            rep.fail(sig, json!({"point": point, "thread": tid, "key": key, "A": av.brief(), "M": mv.brief()}));
+                        }
                     }
                 }
                 None => {
                     // compile: model-free differential
                     if *av != bv {
-                        rep.fail(
-                            sig_for("cache_divergence", read, causes, known),
-                            json!({"point": point, "thread": tid, "key": key, "A": av.brief(), "B": bv.brief()}),
-                        );
+                        let sig = sig_for("cache_divergence", &read_outcome(read, av), causes, known);
+                        if survey() {
+                            rep.class(format!("survey:{}", survey_key(&sig)));
+                        } else {
+                            rep.fail(sig, json!({"point": point, "thread": tid, "key": key, "A": av.brief(), "B": bv.brief()}));
+                        }
                     }
                 }
             }
